@@ -7,7 +7,7 @@ EXTENDS Finality
 (* "lower hash" disagree for some pairs and agree for others               *)
 GHashRank == [b \in 0..12 |-> (b * 5 + 3) % 13]
 
-AllKinds == {"Add", "AddOrphan", "AddDup", "AddWrongNum", "Finalise"}
+AllKinds == {"Add", "AddOrphan", "AddDup", "AddWrongNum", "AddNoDigest", "Finalise"}
 StructKinds == {"Add", "Finalise"}
 
 NoPrims == {FALSE}
